@@ -167,7 +167,9 @@ class Loops:
         if isinstance(v, VRat):
             return VRat(I.fresh_int('hv_' + name), v.den)
         if isinstance(v, VOpaque):
-            return VOpaque(I.fresh('hv_' + name, T.Obj), v.label)
+            t = I.fresh('hv_' + name, T.Obj)
+            I.assume(t != self.ctx.NONE_OBJ)
+            return VOpaque(t, v.label)
         if isinstance(v, VRef):
             c = I.cell(v)
             if isinstance(c, (HList, HDict)):
